@@ -22,10 +22,19 @@
 #include <cstdlib>
 #include <cerrno>
 
+#ifdef SBEPP_VERIF
+struct sbepp_verif_access;
+#endif
+
 namespace sbepp::sbeppc
 {
 class sbe_schema_validator
 {
+#ifdef SBEPP_VERIF
+    // verification hook (off by default): lets the checker's wrapper TU call
+    // the private static kernels
+    friend struct ::sbepp_verif_access;
+#endif
 public:
     static void validate(
         const sbe::message_schema& schema,
